@@ -175,10 +175,16 @@ class TLCResult:
         self.coverage = {}
 
 
+_spec_lock = __import__("threading").Lock()
+
+
 def _stage_specs(ctx):
     d = ctx.path("spec")
-    if not os.path.isdir(d):
-        shutil.copytree(SPEC, d)
+    with _spec_lock:
+        if not os.path.isdir(d):
+            tmp = d + ".tmp"
+            shutil.copytree(SPEC, tmp)
+            os.rename(tmp, d)
     return d
 
 
